@@ -407,11 +407,19 @@ NUMS = [0, 1, 2, 3, 5, 7, 10, 0.5, 1.5, 100, 255, 1e3, 9007199254740991, 1e308, 
 STRS = ['', 'a', 'b', 'ab', 'x y', 'é', '日本', '😀', 'k1', 'a"b', 'line\n']
 
 
+def num_lit(v):
+    """a number as source text denotes it: a negative one is the unary minus applied to a literal"""
+    v = float(v)
+    return ('unary', 'minus', ('num', -v)) if v < 0 else ('num', v)
+
+
 class Gen:
     """Type-directed generator of mostly well-typed, well-scoped core programs."""
 
-    def __init__(self, rng, max_depth=5, p_bad_type=0.05, allow_std=True, allow_error=True, allow_tailstrict=False):
+    def __init__(self, rng, max_depth=5, p_bad_type=0.05, allow_std=True, allow_error=True, allow_tailstrict=False,
+                 new_std=True):
         self.rng = rng
+        self.new_std = new_std
         self.max_depth = max_depth
         self.p_bad = p_bad_type
         self.allow_std = allow_std
@@ -471,6 +479,8 @@ class Gen:
             v = self.pick_var(env, ty)
             if v:
                 return ('var', v)
+        if self.allow_std and self.new_std and 0.44 <= x < 0.447:
+            return self.gen_fold(ty, env, d, inobj)
         if inobj and x < 0.44:
             fld = r.choice(FIELDS)
             k = r.random()
@@ -515,6 +525,8 @@ class Gen:
 
     def gen_num(self, env, d, inobj):
         r = self.rng
+        if self.allow_std and self.new_std and r.random() < 0.06:
+            return self.gen_num_std(env, d, inobj)
         x = r.random()
         if x < 0.25:
             return ('num', float(r.choice(NUMS)))
@@ -531,6 +543,8 @@ class Gen:
 
     def gen_str(self, env, d, inobj):
         r = self.rng
+        if self.allow_std and self.new_std and r.random() < 0.07:
+            return self.gen_str_std(env, d, inobj)
         x = r.random()
         if x < 0.3:
             return ('str', r.choice(STRS))
@@ -572,6 +586,8 @@ class Gen:
 
     def gen_bool(self, env, d, inobj):
         r = self.rng
+        if self.allow_std and self.new_std and r.random() < 0.09:
+            return self.gen_bool_std(env, d, inobj)
         x = r.random()
         if x < 0.15:
             return (r.choice(['true', 'false']),)
@@ -593,6 +609,8 @@ class Gen:
 
     def gen_arr(self, env, d, inobj, elem=None):
         r = self.rng
+        if self.allow_std and self.new_std and d > 0 and r.random() < 0.13:
+            return self.gen_arr_std(env, d, inobj, elem)
         x = r.random()
         et = elem or r.choice(['num', 'str', 'any', 'num', 'obj'])
         if x < 0.45 or d <= 0:
@@ -630,6 +648,8 @@ class Gen:
 
     def gen_obj(self, env, d, inobj):
         r = self.rng
+        if self.allow_std and self.new_std and d > 0 and r.random() < 0.05:
+            return ('std', 'mapWithKey', [self.cb(['str', 'any'], 'any', env, d, inobj), self.gen('obj', env, d - 1, inobj)])
         x = r.random()
         if x < 0.5 or d <= 0:
             return self.gen_object(env, d, inobj)
@@ -698,6 +718,135 @@ class Gen:
                             self.gen('str', env2, d - 2, True) if r.random() < 0.5 else None))
         r.shuffle(members)
         return ('object', members)
+
+    # ---- builtins with callbacks / element-wise forcing (std.filter, std.foldl, ... see NEW_STD) ----
+
+    def cb(self, ptys, ret, env, d, inobj):
+        """A callback: mostly a function literal with one parameter per expected argument (named x, y, z) and a body
+        of type `ret` that may emit a trace (naming the element); a share has too few / too many parameters, an
+        extra parameter with a default, or is a function variable in scope."""
+        r = self.rng
+        if len(ptys) == 1 and r.random() < 0.12:
+            v = self.pick_var(env, 'func1')
+            if v:
+                return ('var', v)
+        if r.random() < 0.03:
+            return self.gen(r.choice(['func1', 'func2', 'num', 'null']), env, d - 1, inobj)
+        names = ['x', 'y', 'z'][:len(ptys)]
+        ps = list(zip(names, ptys))
+        k = r.random()
+        extra = None
+        if k < 0.04:
+            ps = ps[:-1]
+        elif k < 0.08:
+            extra = ('w', None)
+        elif k < 0.15:
+            extra = ('w', 'dflt')
+        env2 = dict(env)
+        for n, t in ps:
+            env2[n] = t
+        params = [(n, None) for n, _ in ps]
+        if extra:
+            params.append(('w', None if extra[1] is None else self.gen('num', env2, d - 2, inobj)))
+            env2['w'] = 'num'
+        body = self.gen(ret, env2, d - 1, inobj)
+        if r.random() < 0.3:
+            self.trace_id += 1
+            msg = ('str', 't%d' % self.trace_id)
+            if ps and r.random() < 0.6:
+                msg = ('binary', 'add', ('str', 't%d:' % self.trace_id), ('var', ps[-1][0]))
+            body = ('std', 'trace', [msg, body])
+        return ('func', params, body)
+
+    def src_arr(self, env, d, inobj, elem='num'):
+        r = self.rng
+        x = r.random()
+        if x < 0.12:
+            return ('std', 'range', [num_lit(r.choice([0, 1, 1, 2, -1])), num_lit(r.choice([0, 2, 3, 4, 6, -2]))])
+        if x < 0.2:
+            return ('array', [self.gen(elem, env, d - 2, inobj) for _ in range(r.randrange(0, 6))])
+        return self.gen_arr(env, d - 1, inobj, elem=elem)
+
+    def gen_fold(self, ty, env, d, inobj):
+        r = self.rng
+        name = r.choice(['foldl', 'foldr'])
+        ptys = [ty, 'num'] if name == 'foldl' else ['num', ty]
+        return ('std', name, [self.cb(ptys, ty, env, d, inobj), self.src_arr(env, d, inobj), self.gen(ty, env, d - 1, inobj)])
+
+    def gen_arr_std(self, env, d, inobj, elem=None):
+        r = self.rng
+        et = elem or r.choice(['num', 'str', 'any', 'num'])
+        k = r.choice(['filter', 'filter', 'flatMap', 'flatMap', 'mapWithIndex', 'filterMap', 'range', 'join', 'fold', 'sort', 'sort'])
+        if k == 'filter':
+            return ('std', 'filter', [self.cb([et], 'bool', env, d, inobj), self.src_arr(env, d, inobj, et)])
+        if k == 'flatMap':
+            if r.random() < 0.85:
+                return ('std', 'flatMap', [self.cb(['num'], 'arr', env, d, inobj), self.src_arr(env, d, inobj)])
+            return ('std', 'flatMap', [self.cb(['str'], r.choice(['str', 'str', 'null', 'any']), env, d, inobj), self.gen('str', env, d - 1, inobj)])
+        if k == 'mapWithIndex':
+            src = self.src_arr(env, d, inobj, et) if r.random() < 0.8 else self.gen('str', env, d - 1, inobj)
+            return ('std', 'mapWithIndex', [self.cb(['num', et], et, env, d, inobj), src])
+        if k == 'filterMap':
+            return ('std', 'filterMap', [self.cb(['num'], 'bool', env, d, inobj), self.cb(['num'], et, env, d, inobj), self.src_arr(env, d, inobj)])
+        if k == 'range':
+            lo = num_lit(r.choice([0, 1, 2, -3, 2.5, 5])) if r.random() < 0.85 else self.gen('num', env, d - 2, inobj)
+            hi = num_lit(r.choice([0, 1, 3, 4, 7, -5, 1e10])) if r.random() < 0.85 else self.gen('num', env, d - 2, inobj)
+            return ('std', 'range', [lo, hi])
+        if k == 'sort':
+            name = r.choice(['sort', 'set'])
+            t = r.choice(['num', 'num', 'str', 'arr', 'any']) if elem is None else et
+            if r.random() < 0.5:
+                src = ('array', [self.gen(t, env, d - 2, inobj) for _ in range(r.choice([0, 1, 2, 3, 4, 5, 8]))])
+            else:
+                src = self.src_arr(env, d, inobj, t)
+            if r.random() < 0.5:
+                return ('std', name, [src])
+            return ('std', name, [src, self.cb([t], r.choice(['num', 'num', 'str', t]), env, d, inobj)])
+        if k == 'join':
+            parts = [self.gen(r.choice(['arr', 'arr', 'arr', 'null', 'any']), env, d - 2, inobj) for _ in range(r.randrange(0, 4))]
+            return ('std', 'join', [self.gen_arr(env, d - 1, inobj, et), ('array', parts) if r.random() < 0.8 else self.gen_arr(env, d - 1, inobj, 'arr')])
+        return self.gen_fold('arr', env, d, inobj)
+
+    def gen_num_std(self, env, d, inobj):
+        r = self.rng
+        k = r.choice(['fold', 'fold', 'count', 'compare', 'length'])
+        if k == 'fold':
+            return self.gen_fold('num', env, d, inobj)
+        if k == 'count':
+            return ('std', 'count', [self.src_arr(env, d, inobj, r.choice(['num', 'any'])), self.gen(r.choice(['num', 'any']), env, d - 1, inobj)])
+        if k == 'compare':
+            t = r.choice(['num', 'str', 'arr', 'any'])
+            return ('std', '__compare', [self.gen(t, env, d - 1, inobj), self.gen(t, env, d - 1, inobj)])
+        return ('std', 'length', [self.gen_arr_std(env, d - 1, inobj)]) if d > 1 else ('num', 1.0)
+
+    def gen_str_std(self, env, d, inobj):
+        r = self.rng
+        k = r.choice(['join', 'join', 'toString', 'flatMap', 'fold'])
+        if k == 'join':
+            parts = [self.gen(r.choice(['str', 'str', 'str', 'null', 'any']), env, d - 2, inobj) for _ in range(r.randrange(0, 5))]
+            return ('std', 'join', [self.gen('str', env, d - 1, inobj), ('array', parts) if r.random() < 0.8 else self.gen_arr(env, d - 1, inobj, 'str')])
+        if k == 'toString':
+            return ('std', 'toString', [self.gen(r.choice(['str', 'arr', 'obj', 'bool', 'null', 'any']), env, d - 1, inobj)])
+        if k == 'flatMap':
+            return ('std', 'flatMap', [self.cb(['str'], 'str', env, d, inobj), self.gen('str', env, d - 1, inobj)])
+        return self.gen_fold('str', env, d, inobj)
+
+    def gen_bool_std(self, env, d, inobj):
+        r = self.rng
+        k = r.choice(['member', 'all', 'any', 'equals', 'primitiveEquals', 'assertEqual', 'fold'])
+        if k == 'member':
+            if r.random() < 0.3:
+                return ('std', 'member', [self.gen('str', env, d - 1, inobj), self.gen('str', env, d - 1, inobj)])
+            t = r.choice(['num', 'any', 'arr'])
+            return ('std', 'member', [self.src_arr(env, d, inobj, t), self.gen(t, env, d - 1, inobj)])
+        if k in ('all', 'any'):
+            if r.random() < 0.5:
+                return ('std', k, [('array', [self.gen('bool', env, d - 2, inobj) for _ in range(r.randrange(0, 5))])])
+            return ('std', k, [self.gen_arr(env, d - 1, inobj, 'bool')])
+        if k == 'fold':
+            return self.gen_fold('bool', env, d, inobj)
+        t = r.choice(['num', 'str', 'arr', 'obj', 'bool', 'null', 'any', 'func1'] if k == 'primitiveEquals' else ['num', 'str', 'arr', 'obj', 'any', 'arr'])
+        return ('std', k, [self.gen(t, env, d - 1, inobj), self.gen(t, env, d - 1, inobj)])
 
     def gen_func1(self, env, d, inobj):
         env2 = dict(env)
@@ -893,3 +1042,187 @@ def late_binding_cases(rng, n):
             outer = ('object', [('fix', 'tag', False, 'd', None, S('outer')), ('fix', 'c', False, 'd', None, inner)])
             out.append((('field', ('field', outer, 'c'), 'v'), ('ok', ['inner', 'outer'])))
     return out
+
+
+# builtins added to the evaluator model after std.makeArray (callbacks, element-wise forcing, equality)
+NEW_STD = {'filter', 'foldl', 'foldr', 'flatMap', 'mapWithIndex', 'mapWithKey', 'filterMap', 'join', 'range', 'member', 'count',
+           'all', 'any', 'equals', '__compare', 'primitiveEquals', 'assertEqual', 'toString', 'sort', 'set'}
+
+
+def std_names(e, acc=None):
+    """names of the builtins applied anywhere in a program"""
+    acc = set() if acc is None else acc
+    if isinstance(e, tuple):
+        if e and e[0] == 'std' and isinstance(e[1], str):
+            acc.add(e[1])
+        for x in e[1:]:
+            std_names(x, acc)
+    elif isinstance(e, list):
+        for x in e:
+            std_names(x, acc)
+    return acc
+
+
+def uses_new_std(e):
+    return bool(std_names(e) & NEW_STD)
+
+
+def std_shapes(D):
+    """Recursion / width shapes of size D through the callback builtins: (name, program).  Every level (or element)
+    needs at least one frame: `std.filter`, `std.flatMap`, `std.filterMap` push one `Call` frame per ELEMENT before the
+    first callback runs; folds, joins, equality push them one level at a time."""
+    N = lambda x: ('num', float(x))
+    V = lambda x: ('var', x)
+    call = lambda f, *a: ('call', f, [('p', x) for x in a], False)
+    std = lambda n, *a: ('std', n, list(a))
+    fn = lambda ps, b: ('func', [(p, None) for p in ps], b)
+    dec = ('binary', 'sub', V('n'), N(1))
+    is0 = ('binary', 'eq', V('n'), N(0))
+    rng = std('range', N(1), N(D))
+    out = []
+    out.append(('filter-wide', std('filter', fn(['x'], ('binary', 'gt', V('x'), N(1))), rng)))
+    out.append(('flatmap-wide', std('flatMap', fn(['x'], ('array', [V('x'), V('x')])), rng)))
+    out.append(('filtermap-wide', std('filterMap', fn(['x'], ('binary', 'gt', V('x'), N(1))), fn(['x'], ('binary', 'mul', V('x'), N(2))), rng)))
+    out.append(('sort-wide', std('sort', std('map', fn(['x'], ('binary', 'sub', N(0), V('x'))), rng))))
+    out.append(('set-key-wide', std('set', rng, fn(['x'], ('binary', 'rem', V('x'), N(3))))))
+    out.append(('flatmap-str-wide', std('flatMap', fn(['x'], ('binary', 'add', V('x'), V('x'))), ('str', 'a' * D))))
+
+    def rec(name, body):
+        out.append((name, ('local', [('f', [('n', None)], body)], call(V('f'), N(D)))))
+    # exactly ONE recursive call per level (the other elements do not recurse), so the work is linear in D
+    one = lambda v, other, recur: ('if', ('binary', 'eq', V(v), N(1)), recur, other)
+    rec('foldl-rec', ('if', is0, N(0), std('foldl', fn(['a', 'x'], ('binary', 'add', V('a'), call(V('f'), dec))), ('array', [N(1)]), N(0))))
+    rec('foldr-rec', ('if', is0, N(0), std('foldr', fn(['x', 'a'], one('x', V('a'), ('binary', 'add', V('a'), call(V('f'), dec)))), ('array', [N(1), N(2)]), N(0))))
+    rec('foldl-init-rec', ('if', is0, N(0), std('foldl', fn(['a', 'x'], V('a')), ('array', []), call(V('f'), dec))))
+    rec('filter-rec', ('if', is0, ('array', []), std('filter', fn(['x'], one('x', ('true',), ('binary', 'eq', std('length', call(V('f'), dec)), N(0)))), ('array', [N(0), N(1)]))))
+    rec('flatmap-rec', ('if', is0, ('array', [N(0)]), std('flatMap', fn(['x'], one('x', ('array', []), call(V('f'), dec))), ('array', [N(0), N(1)]))))
+    rec('map-rec', ('if', is0, N(0), ('index', std('map', fn(['x'], ('binary', 'add', call(V('f'), dec), V('x'))), ('array', [N(1)])), N(0))))
+    rec('mapwithindex-rec', ('if', is0, N(0), ('index', std('mapWithIndex', fn(['i', 'x'], ('binary', 'add', call(V('f'), dec), V('i'))), ('array', [N(1)])), N(0))))
+    rec('mapwithkey-rec', ('if', is0, N(0), ('field', std('mapWithKey', fn(['k', 'v'], ('binary', 'add', call(V('f'), dec), V('v'))),
+                                                        ('object', [('fix', 'a', False, 'd', None, N(1))])), 'a')))
+    rec('join-rec', ('if', is0, ('str', ''), std('join', ('str', '-'), ('array', [call(V('f'), dec), ('str', 'a')]))))
+    rec('all-rec', ('if', is0, ('true',), std('all', ('array', [('true',), call(V('f'), dec)]))))
+    rec('any-rec', ('if', is0, ('false',), std('any', ('array', [('false',), call(V('f'), dec)]))))
+    rec('count-rec', ('if', is0, N(0), std('count', ('array', [N(1), call(V('f'), dec)]), N(1))))
+    rec('sort-rec', ('if', is0, N(0), ('index', std('sort', ('array', [N(2), N(1)]), fn(['x'], one('x', ('binary', 'add', call(V('f'), dec), V('x')), N(0)))), N(0))))
+    rec('tostring-rec', ('if', is0, N(0), std('length', std('toString', ('array', [call(V('f'), dec)])))))
+    mk = [('mk', [('n', None)], ('if', is0, ('array', []), ('array', [call(V('mk'), dec)])))]
+    a, b = call(V('mk'), N(D)), call(V('mk'), N(D))
+    out.append(('std-equals-nested', ('local', mk, std('equals', a, b))))
+    out.append(('std-compare-nested', ('local', mk, std('__compare', a, b))))
+    out.append(('std-assertequal-nested', ('local', mk, std('assertEqual', a, b))))
+    out.append(('std-member-nested', ('local', mk, std('member', ('array', [N(1), a]), b))))
+    out.append(('std-tostring-nested', ('local', mk, std('length', std('toString', a)))))
+    return out
+
+
+def std_cases(rng, n):
+    """Directed programs for the callback / element-wise builtins: small arrays (integers with repeats, strings, nested
+    arrays, mixed values with failing elements), callbacks that trace the element they see, have the wrong arity or the
+    wrong result type; keys with ties for std.sort / std.set (the order of equal keys is the implementation's)."""
+    N = num_lit
+    S = lambda x: ('str', x)
+    V = lambda x: ('var', x)
+    std = lambda nm, *a: ('std', nm, list(a))
+    fn = lambda ps, b: ('func', [(p, None) for p in ps], b)
+    A = lambda xs: ('array', list(xs))
+
+    def tr(tag, v, body):
+        return std('trace', ('binary', 'add', S(tag + ':'), v), body)
+
+    def val(depth=2):
+        k = rng.random()
+        if k < 0.45 or depth == 0:
+            return N(rng.choice([0, 1, 2, 3, 3, 5, -1, 7]))
+        if k < 0.6:
+            return S(rng.choice(['', 'a', 'b', 'ab', 'é']))
+        if k < 0.7:
+            return rng.choice([('null',), ('true',), ('false',)])
+        if k < 0.9:
+            return A([val(depth - 1) for _ in range(rng.randrange(0, 3))])
+        if k < 0.95:
+            return ('object', [('fix', 'a', False, 'd', None, val(depth - 1))])
+        return ('error', S('boom'))
+
+    def arr(kind=None, n=None):
+        n = rng.randrange(0, 9) if n is None else n
+        kind = kind or rng.choice(['int', 'int', 'str', 'mixed', 'arr'])
+        if kind == 'int':
+            return A([N(rng.randrange(-2, 6)) for _ in range(n)])
+        if kind == 'str':
+            return A([S(rng.choice(['', 'a', 'b', 'ab', 'ba', 'é'])) for _ in range(n)])
+        if kind == 'arr':
+            return A([A([N(rng.randrange(0, 3)) for _ in range(rng.randrange(0, 3))]) for _ in range(n)])
+        return A([val() for _ in range(n)])
+
+    def keyf():
+        k = rng.randrange(7)
+        x = V('x')
+        return [fn(['x'], ('unary', 'minus', x)), fn(['x'], ('binary', 'rem', x, N(3))), fn(['x'], tr('k', x, ('binary', 'rem', x, N(2)))),
+                fn(['x'], tr('k', x, x)), fn(['x'], std('length', x)), fn(['x'], A([('binary', 'rem', x, N(2)), x])), fn(['x', 'y'], x)][k]
+
+    def pred():
+        k = rng.randrange(6)
+        x = V('x')
+        return [fn(['x'], ('binary', 'gt', x, N(1))), fn(['x'], tr('p', x, ('binary', 'eq', ('binary', 'rem', x, N(2)), N(0)))),
+                fn(['x'], tr('p', x, ('binary', 'lt', x, N(3)))), fn(['x'], x), fn([], ('true',)),
+                fn(['x'], ('if', ('binary', 'eq', x, N(3)), ('error', S('three')), ('true',)))][k]
+
+    def fold_fn(left):
+        k = rng.randrange(6)
+        ps = ['a', 'x'] if left else ['x', 'a']
+        return [fn(ps, ('binary', 'add', V('a'), V('x'))), fn(ps, tr('f', V('x'), ('binary', 'add', V('a'), V('x')))),
+                fn(ps, tr('f', V('x'), A([V('a'), V('x')]))), fn(ps, tr('f', V('x'), V('a'))), fn(ps[:1], V(ps[0])),
+                fn(ps, ('binary', 'add', ('binary', 'add', S(''), V('a')), V('x')))][k]
+
+    def case():
+        k = rng.randrange(20)
+        if k == 0:
+            return std(rng.choice(['sort', 'set']), arr(rng.choice(['int', 'str', 'arr', 'mixed'])))
+        if k == 1:
+            return std(rng.choice(['sort', 'set']), arr('int', rng.randrange(0, 14)), keyf())
+        if k == 2:
+            return std('filter', pred(), arr(rng.choice(['int', 'mixed'])))
+        if k == 3:
+            return std('foldl', fold_fn(True), arr(rng.choice(['int', 'str'])), rng.choice([N(0), S(''), A([])]))
+        if k == 4:
+            return std('foldr', fold_fn(False), arr(rng.choice(['int', 'str'])), rng.choice([N(0), S(''), A([])]))
+        if k == 5:
+            return std('flatMap', rng.choice([fn(['x'], A([V('x'), V('x')])), fn(['x'], tr('m', V('x'), A([V('x')]))), fn(['x'], V('x')),
+                                              fn(['x'], ('binary', 'add', V('x'), V('x')))]),
+                       rng.choice([arr('int'), arr('arr'), S('abé'), arr('mixed')]))
+        if k == 6:
+            return std('mapWithIndex', rng.choice([fn(['i', 'x'], A([V('i'), V('x')])), fn(['i', 'x'], tr('m', V('i'), V('x'))), fn(['i'], V('i'))]),
+                       rng.choice([arr(), S('héllo')]))
+        if k == 7:
+            return std('mapWithKey', rng.choice([fn(['k', 'v'], ('binary', 'add', V('k'), V('v'))), fn(['k', 'v'], tr('m', V('k'), V('v'))), fn(['k'], V('k'))]),
+                       ('object', [('fix', f, False, rng.choice('dhf'), None, val()) for f in rng.sample(['a', 'b', 'c', 'd'], rng.randrange(0, 4))]
+                        + ([('assert', ('binary', 'gt', std('length', ('self',)), N(rng.randrange(0, 3))), S('too small'))] if rng.random() < 0.3 else [])))
+        if k == 8:
+            return std('filterMap', pred(), rng.choice([fn(['x'], ('binary', 'mul', V('x'), N(2))), fn(['x'], tr('m', V('x'), V('x'))), fn([], N(1))]),
+                       arr(rng.choice(['int', 'mixed'])))
+        if k == 9:
+            return std('join', rng.choice([S(','), S(''), A([N(0)]), A([]), N(1)]),
+                       rng.choice([arr('str'), arr('arr'), arr('mixed'), A([S('a'), ('null',), S('b')]), A([('null',), A([N(1)]), ('null',), A([])])]))
+        if k == 10:
+            return std('range', rng.choice([N(0), N(1), N(-3), N(2.5), S('a')]), rng.choice([N(0), N(4), N(-5), N(1e10), N(3.5), ('null',)]))
+        if k == 11:
+            return std('member', rng.choice([arr(), S('hello'), S(''), N(1)]), rng.choice([val(), S('ll'), S(''), N(1)]))
+        if k == 12:
+            return std('count', rng.choice([arr(), arr('int'), N(1)]), val())
+        if k == 13:
+            return std(rng.choice(['all', 'any']), A([rng.choice([('true',), ('false',), tr('b', N(1), ('true',)), tr('b', N(0), ('false',)), N(1), ('error', S('boom'))])
+                                                     for _ in range(rng.randrange(0, 5))]))
+        if k == 14:
+            return std(rng.choice(['equals', '__compare', 'primitiveEquals', 'assertEqual']), val(3), val(3))
+        if k == 15:
+            v = val(3)
+            return std(rng.choice(['equals', '__compare', 'primitiveEquals', 'assertEqual']), v, v)
+        if k == 16:
+            return std('toString', val(3))
+        if k == 17:
+            return std('length', std('filter', pred(), std('range', N(1), N(rng.randrange(0, 9)))))
+        if k == 18:
+            return std('sort', std('map', keyf(), arr('int')), keyf())
+        return std('set', arr('int', rng.randrange(2, 10)), keyf())
+    return [case() for _ in range(n)]
